@@ -63,9 +63,12 @@ deriving Repr, DecidableEq
 def ofTok (t : Tok TVal) : STok :=
   ⟨t.s, t.e, t.str, match t.val with | none => .none | some (.kw k) => .kw k | some (.sym a) => .sym a⟩
 
-/-- default mode: the automaton tokenizer -/
+/-- default mode: the automaton tokenizer, given the (cached) automaton of the table -/
+def advancedTokensW (c : Cls) (tr : Trie TVal) (text : Str) : List STok :=
+  (tr.tokenize c text).map ofTok
+
 def advancedTokens (c : Cls) (T : Table) (text : Str) : List STok :=
-  ((buildTrie c T).tokenize c text).map ofTok
+  advancedTokensW c (buildTrie c T) text
 
 def operatorOf (w : Str) : Option Kw :=
   if w = sAND then some .and else if w = sOR then some .or else if w = sWITH then some .with else none
@@ -174,15 +177,22 @@ def toPToks : List STok → Except LErr (List PTok)
     | .error e => .error e
     | .ok p => (toPToks ts).map (fun r => p :: r)
 
-/-- the tokens of the first stage, either tokenizer -/
-def rawTokens (c : Cls) (T : Table) (simple : Bool) (text : Str) : Except LErr (List STok) :=
-  if simple then simpleTokens c T (wordPieces c text) else .ok (advancedTokens c T text)
+/-- the tokens of the first stage, either tokenizer; `tr` is the cached automaton of the table -/
+def rawTokensW (c : Cls) (T : Table) (tr : Trie TVal) (simple : Bool) (text : Str) : Except LErr (List STok) :=
+  if simple then simpleTokens c T (wordPieces c text) else .ok (advancedTokensW c tr text)
 
-/-- `list(Licensing.tokenize(text, strict, simple))` -/
-def ltok (c : Cls) (T : Table) (simple strict : Bool) (text : Str) : Except LErr (List PTok) := do
-  let raw ← rawTokens c T simple text
+/-- `list(Licensing.tokenize(text, strict, simple))` with the cached automaton `tr` -/
+def ltokW (c : Cls) (T : Table) (tr : Trie TVal) (simple strict : Bool) (text : Str) : Except LErr (List PTok) := do
+  let raw ← rawTokensW c T tr simple text
   let merged ← mergeUnknown c none raw
   let grouped ← groupWith c strict merged
   toPToks grouped
+
+def rawTokens (c : Cls) (T : Table) (simple : Bool) (text : Str) : Except LErr (List STok) :=
+  rawTokensW c T (buildTrie c T) simple text
+
+/-- `list(Licensing.tokenize(text, strict, simple))` on a Licensing whose automaton is built from its table -/
+def ltok (c : Cls) (T : Table) (simple strict : Bool) (text : Str) : Except LErr (List PTok) :=
+  ltokW c T (buildTrie c T) simple strict text
 
 end LE
